@@ -343,6 +343,7 @@ def run_c13(chk: Check) -> int:
     traces += canaries(traces, chk.rng)
     verdicts = chk.judge("proto", "Trace_Proto", traces, what="c13-traces")
     harvest(chk, traces, verdicts, ("C13",))
+    life_traces(chk)
     t = next(t for t in traces if t["mode"] == "clean" and len(t["candidates"]) > 1)
     chk.sample({"variant": t["variant"], "candidates": t["candidates"], "origin": t["origin"], "calls": t["calls"][:3], "plan_payloads": t["plan_payloads"][:4]})
     chk.assumptions += ["readers are wrapped in recording proxies (public MeterReaderBase interface); payload identity = payload content, "
@@ -351,7 +352,103 @@ def run_c13(chk: Check) -> int:
     return chk.finish(rule="model: 2 readers x <=2 messages per call (valid x payload none/empty/data) x 3 calls x both variants, Impl => Contract; "
                            "spec->code: every first call of that space followed by 5 representative second calls replayed with scripted readers; "
                            "code->spec: real readers in 8 candidate lists, clean HDLC/P1 plans, corrupted and mixed streams, random chunkings, "
-                           "both protocol classes, each data_received() call judged by TLC; non-trivial = trace with at least one queue entry")
+                           "both protocol classes, each data_received() call judged by TLC; non-trivial = trace with at least one queue entry; "
+                           "growth (DRIFT level): protocol lifecycle ProtoLife (connection_made/data/eof/connection_lost, done future, transport.close()) - "
+                           "all callback orders up to length 4/5 over 9 callback variants judged by Trace_ProtoLife")
+
+
+# ----------------------------------------------------------------------------- lifecycle (growth, DESIGN §12)
+def life_record(variant: str, ops: list[dict], tid: str) -> dict:
+    """Drive one protocol object through callbacks; observe done / transport reference / close() calls after each."""
+    loop = asyncio.new_event_loop()
+    asyncio.set_event_loop(loop)
+    try:
+        from han.hdlc import HdlcFrameReader
+        from han.dlde import ModeDReader
+
+        class T(asyncio.BaseTransport):
+            def __init__(self, style):
+                super().__init__()
+                self.closes, self.raises = 0, False
+                if style == "serial":
+                    self.serial = "fake-serial"
+                self.style = style
+
+            def get_extra_info(self, name, default=None):
+                return ("127.0.0.1", 1234) if (name == "peername" and self.style == "peer") else default
+
+            def close(self):
+                self.closes += 1
+                if self.raises:
+                    raise OSError("close failed")
+
+        p = _classes()[variant](asyncio.Queue(), [HdlcFrameReader(False), ModeDReader()])
+        transports: list = []
+        out = []
+        for o in ops:
+            ret = ""
+            try:
+                if o["op"] == "made":
+                    transports.append(T(o.get("style", "plain")))
+                    r = p.connection_made(transports[-1])
+                elif o["op"] == "data":
+                    r = p.data_received(bytes.fromhex(o.get("hex", "")))
+                elif o["op"] == "eof":
+                    r = p.eof_received()
+                else:
+                    for t in transports:
+                        t.raises = bool(o["closeRaises"])
+                    r = p.connection_lost(OSError("lost") if o.get("exc") else None)
+                ret = "" if r is None else ("false" if r is False else repr(r)[:40])
+            except Exception as ex:  # noqa: BLE001 - what the caller (asyncio) would see
+                ret = type(ex).__name__
+            fut = p.done
+            done = bool(fut.done())
+            if done and (fut.cancelled() or fut.exception() is not None):
+                ret = ret or "done-not-a-result"
+            out.append({"op": o["op"], "closeRaises": bool(o.get("closeRaises", False)), "ret": ret, "done": done,
+                        "tref": getattr(p, "_transport", None) is not None, "closes": sum(t.closes for t in transports)})
+        return {"id": tid, "canary": "", "variant": variant, "ops": out, "script": ops}
+    finally:
+        asyncio.set_event_loop(None)
+        loop.close()
+
+
+def life_traces(chk: Check) -> None:
+    """Every asyncio-ordered history + every callback order of length <= 4 (quick) / 5, both classes; judged by TLC.
+    A rejection is DRIFT, not a violation: the lifecycle is not one of the listed properties (DESIGN §12)."""
+    import itertools
+    chk.model("proto", "MC_ProtoLife", workers=4, coverage=True, timeout=300)
+    alphabet = [{"op": "made"}, {"op": "made", "style": "serial"}, {"op": "made", "style": "peer"},
+                {"op": "data", "hex": "7ea00801020110378d7e"}, {"op": "data", "hex": "00ff"}, {"op": "eof"},
+                {"op": "lost", "closeRaises": False}, {"op": "lost", "closeRaises": False, "exc": True},
+                {"op": "lost", "closeRaises": True, "exc": True}]
+    depth = 4 if chk.tier == "quick" else 5
+    scripts = [list(c) for n in range(1, depth + 1) for c in itertools.product(alphabet, repeat=n)]
+    if chk.tier == "quick":
+        scripts = [s for i, s in enumerate(scripts) if len(s) < 4 or (i + chk.seed) % 4 == 0]
+    traces = []
+    for i, sc in enumerate(scripts):
+        traces.append(life_record(["payload", "message"][i % 2], sc, f"life-{i}"))
+    import copy
+    for kind, t in zip(["done_early", "close_missing"], [t for t in traces if any(o["op"] == "lost" for o in t["ops"]) and t["ops"][0]["op"] == "made"][:2]):
+        c = copy.deepcopy(t)
+        if kind == "done_early":
+            c["ops"][0]["done"] = True
+        else:
+            for o in c["ops"]:
+                if o["op"] == "lost":
+                    o["closes"] = 0
+                    break
+        c["canary"], c["id"] = kind, f"canary-{kind}-{t['id']}"
+        traces.append(c)
+    verdicts = chk.judge("proto", "Trace_ProtoLife", traces, what="lifecycle-traces", shards=8)
+    for t, v in zip(traces, verdicts):
+        if t["canary"]:
+            continue
+        chk.count(t["id"] if any(o["done"] for o in t["ops"]) else None)
+        for fl in v["fails"]:
+            chk.drift(f"protocol lifecycle: clause {fl['c']} at callback {fl['at']} of {[o['op'] for o in t['script']]} ({t['variant']})")
 
 
 def replay_any(chk: Check, rp: dict, prefixes) -> int:
